@@ -76,3 +76,79 @@ func isInvalidTextErr(err error) bool {
 //@ loop 0 invariant len(b) <= len(old(b)) && vForall(0, len(b), func(i int) bool { return b[i] == old(b)[i] })
 //@ loop 0 invariant len(old(b)) > 0 && old(b)[len(old(b))-1] == '"' ==> len(b) < len(old(b))
 //@ loop 0 decreases len(b)
+
+// ---------------------------------------------------------------- CompareUTF16
+//
+// Specification (RFC 8785 section 3.2.3, written over UTF-16 code units, not the
+// way the code computes it): compare the two texts code unit by code unit. A
+// scalar value below U+10000 is one unit; a supplementary scalar value is the
+// pair (hi, lo). cmp16 compares the units of one scalar value of each text at a
+// time and recurses when they are equal.
+
+//@ spec wfUTF8From
+func wfUTF8From(b []byte, i int) bool {
+	if i >= len(b) || i < 0 {
+		return true
+	}
+	return utf8Len(b, i) > 0 && wfUTF8From(b, i+utf8Len(b, i))
+}
+
+//@ spec u16hi
+func u16hi(r rune) rune {
+	if r < 0x10000 {
+		return r
+	}
+	return 0xd800 + (r-0x10000)/1024
+}
+
+//@ spec u16lo
+func u16lo(r rune) rune {
+	if r < 0x10000 {
+		return 0
+	}
+	return 0xdc00 + (r-0x10000)%1024
+}
+
+//@ spec sign3
+func sign3(a, b int) int {
+	if a < b {
+		return -1
+	}
+	if a > b {
+		return +1
+	}
+	return 0
+}
+
+//@ spec cmp16
+func cmp16(x []byte, i int, y []byte, j int) int {
+	if i >= len(x) || j >= len(y) || i < 0 || j < 0 {
+		return sign3(len(x)-i, len(y)-j)
+	}
+	rx, ry := utf8Rune(x, i), utf8Rune(y, j)
+	if u16hi(rx) != u16hi(ry) {
+		return sign3(int(u16hi(rx)), int(u16hi(ry)))
+	}
+	if u16lo(rx) != u16lo(ry) {
+		return sign3(int(u16lo(rx)), int(u16lo(ry)))
+	}
+	return cmp16(x, i+utf8Len(x, i), y, j+utf8Len(y, j))
+}
+
+//@ extern cmp.Compare(x, y int) (result int)
+//@ trusted cmp: three-way comparison of ordered values
+//@ ensures result == sign3(x, y)
+
+// CompareUTF16, on well-formed UTF-8, is the code-unit order of the UTF-16
+// encodings.
+//
+//@ func CompareUTF16
+//@ property C13 C20
+//@ requires wf: wfUTF8From(x, 0) && wfUTF8From(y, 0)
+//@ ensures result == cmp16(x, 0, y, 0)
+//@ loop 0 invariant suffix: len(x) <= len(old(x)) && len(y) <= len(old(y)) && sameSlice(x, old(x)[len(old(x))-len(x):]) && sameSlice(y, old(y)[len(old(y))-len(y):])
+//@ loop 0 invariant wf: wfUTF8From(old(x), len(old(x))-len(x)) && wfUTF8From(old(y), len(old(y))-len(y))
+//@ loop 0 invariant same: cmp16(old(x), len(old(x))-len(x), old(y), len(old(y))-len(y)) == cmp16(old(x), 0, old(y), 0)
+//@ loop 0 decreases len(x)
+//@ at call utf8.DecodeRune#0 assert rx: rx == utf8Rune(old(x), len(old(x))-len(x)) && nx == utf8Len(old(x), len(old(x))-len(x)) && nx >= 2
+//@ at call utf8.DecodeRune#1 assert ry: ry == utf8Rune(old(y), len(old(y))-len(y)) && ny == utf8Len(old(y), len(old(y))-len(y)) && ny >= 2
